@@ -148,8 +148,10 @@ def check_chain(ctx: Ctx, c: Dict[str, Any], variant: int = 0) -> None:
     # align_corners flag, which names the same sample positions - must hold the ramp at those positions and carry those grids
     if len(hist) == 1:
         targets = [g.align_corners(not g.align_corners()) for g in grids]
+        pad_arg = ("border", -1000.0, "zeros", 250, -0.5)[(variant // 3) % 5]
+        sig = dict(**sig, padding=str(pad_arg))
         try:
-            y = x0.sample(targets[0] if kind != "batch2" else targets, mode="linear", padding="border")
+            y = x0.sample(targets[0] if kind != "batch2" else targets, mode="linear", padding=pad_arg)
             ygrids = [y.grid()] if kind == "image" else list(y.grids())
             ydata = y.tensor() if kind != "image" else y.tensor().unsqueeze(0)
             def same_grid(p_, q_):
@@ -190,6 +192,45 @@ def check_chain(ctx: Ctx, c: Dict[str, Any], variant: int = 0) -> None:
         except Exception as ex:
             ctx.violation(dict(**sig, attr="sample", exc=type(ex).__name__), f"{what}: sample() on the derived grid raised {type(ex).__name__}: {str(ex)[:120]}", c)
             return
+        # (3c) a flow field sampled on the derived grid(s): one constant WORLD displacement d, stored with each kind of axes; the
+        # returned (data, grid, axes) triple must still describe d, i.e. hold the components of d w.r.t. the NEW grid
+        from deepali.core.grid import Axes
+        from deepali.data.flow import FlowFields
+
+        d = torch.tensor([0.75, -0.5, 1.25][:D], dtype=torch.float64)
+
+        def comps(gr, axes):
+            A = gr.direction().double() @ torch.diag(gr.spacing().double())
+            v = torch.linalg.solve(A, d)
+            if axes == Axes.WORLD:
+                return d
+            if axes == Axes.GRID:
+                return v
+            n_ = torch.tensor([float(k) for k in gr.size()], dtype=torch.float64)
+            return 2 * v / (n_ - 1 if axes == Axes.CUBE_CORNERS else n_)
+
+        srcs = [base] if kind != "batch2" else [base, base2]
+        axes_f = (Axes.GRID, Axes.WORLD, Axes.CUBE, Axes.CUBE_CORNERS)[(variant // 3) % 4]
+        if not (axes_f == Axes.CUBE_CORNERS and (min(base.size()) < 2 or min(min(t.size()) for t in targets) < 2)):
+            try:
+                fdat = torch.stack([comps(gs, axes_f).to(torch.float32).reshape(D, *([1] * D)).expand(D, *gs.shape) for gs in srcs])
+                ff = FlowFields(fdat.clone(), srcs, axes_f)
+                fy = ff.sample(targets[0] if len(srcs) == 1 else targets, mode="linear", padding="border")
+                if not isinstance(fy, FlowFields) or fy.axes() != axes_f:
+                    ctx.violation(dict(**sig, attr="flow_sample_axes", axes=axes_f.value), f"{what}: a {axes_f.value} flow field sampled on the derived grid comes back as {type(fy).__name__} with axes {getattr(fy, 'axes', lambda: None)()}", c)
+                    return
+                for it, tg in enumerate(fy.grids()):
+                    e = comps(tg, axes_f)
+                    got = fy.tensor()[it].double().reshape(D, -1)
+                    err = float((got - e.reshape(D, 1)).abs().max())
+                    if err > 3e-4 * max(1.0, float(e.abs().max())):
+                        ctx.violation(dict(**sig, attr="flow_sample_data", axes=axes_f.value, item=it),
+                                      f"{what}: a constant world displacement {d.tolist()} stored with {axes_f.value} axes and sampled on the derived grid has components "
+                                      f"{got[:, 0].tolist()}, the new grid's components of that displacement are {e.tolist()}", c)
+                        return
+            except Exception as ex:
+                ctx.violation(dict(**sig, attr="flow_sample", axes=axes_f.value, exc=type(ex).__name__), f"{what}: FlowFields.sample() on the derived grid raised {type(ex).__name__}: {str(ex)[:120]}", c)
+                return
     # (4) the probes computed exactly by the specification (first item)
     g = grids[0]
     for p in c["probes"]:
